@@ -1209,8 +1209,16 @@ def _decorate_new_with_invariants(new_func: CallableT) -> CallableT:
             # The object is complete only once __init__ has run; the wrapper around __init__ checks the invariants.
             return instance
 
-        for invariant in instance.__class__.__invariants__:
-            _assert_invariant(contract=invariant, instance=instance)
+        # The invariants might call the public methods of the instance. These calls are re-entrant, as they are
+        # for the classes constructed by __init__, so the instance is marked while its invariants are evaluated.
+        instance_mark = _Mark(flow, id(instance))
+        try:
+            _IN_PROGRESS.set(_get_in_progress() | {instance_mark})
+
+            for invariant in instance.__class__.__invariants__:
+                _assert_invariant(contract=invariant, instance=instance)
+        finally:
+            instance_mark.active = False
 
         return instance
 
